@@ -66,12 +66,41 @@ impl Monitor for C18 {
         "cases = seeded histories of 50..2000 Pool operations (intern_string / intern_package_name / lookup_package_name / intern_version_set / intern_solvable / intern_version_set_union with heap-carrying values drawn from small key domains so that repeats are frequent), checked against a HashMap+Vec reference model after every operation: equal values -> same id, different values -> different ids, resolve(id) == interned value, solvable and union ids dense and unique. EVERY reference ever returned (&str, &String, &VS, &Solvable) is kept alive and re-read against its expected value periodically and at the end, so an element that moved on growth is a detectable dangling reference (reported by Miri / ASan, or as a content mismatch). distinct = hash of the operation list; non-trivial = history crossing >= 2 chunk boundaries (128) in some arena while >= 100 references are held".into()
     }
     fn cases(&self, tier: Tier) -> u64 {
-        tier.pick(2_000, 60_000)
+        tier.pick(8_000, 160_000)
     }
     fn floor(&self, tier: Tier) -> u64 {
-        tier.pick(300, 8_000)
+        tier.pick(600, 6_000)
     }
     fn generate(&self, r: &mut Rng, _tier: Tier, _i: u64) -> C18Case {
+        if crate::report::small() {
+            // under Miri: one arena is pushed across two chunk boundaries, the others stay small
+            let len = 290 + r.below(20) as usize;
+            let heavy = r.below(3);
+            let mut ops = vec![];
+            let mut nvs = 0u32;
+            for i in 0..len {
+                ops.push(if r.chance(9, 10) {
+                    match heavy {
+                        0 => Op::Solvable(r.below(40) as u32, r.below(1000) as u32),
+                        1 => Op::Str(i as u32),
+                        _ => {
+                            nvs += 1;
+                            Op::Vs(r.below(10) as u32, i as u32)
+                        }
+                    }
+                } else {
+                    match r.below(5) {
+                        0 => Op::Str(r.below(30) as u32),
+                        1 => Op::Name(r.below(30) as u32),
+                        2 => Op::LookupName(r.below(35) as u32),
+                        3 => Op::Solvable(r.below(30) as u32, r.below(1000) as u32),
+                        _ if nvs > 0 => Op::Union((0..1 + r.below(4)).map(|_| r.below(nvs as u64) as u32).collect()),
+                        _ => Op::Name(r.below(30) as u32),
+                    }
+                });
+            }
+            return C18Case { ops, revalidate_every: 64 };
+        }
         let len = match r.below(4) {
             0 => 50 + r.below(150),
             1 => 200 + r.below(400),
